@@ -303,7 +303,7 @@ def classify(results, expect_panic):
         name = r.get("property", "")
         cls = prop_class(name)
         st = r.get("status", "")
-        desc = r.get("description", "")
+        desc = r.get("description", "").strip().strip('"')
         loc = r.get("sourceLocation", {})
         where = "%s:%s" % (loc.get("file", "?"), loc.get("line", "?"))
         if cls == "cover":
